@@ -102,7 +102,7 @@ def run(tier, rep):
             rep.violation('the precedence levels the table is generated from are not the published list: %r' % (prec,), {'harness': 'precedences', 'got': prec, 'want': DOC_PRECEDENCES})
         reft = gen_ref_tables(sc, states, action, goto)
         KB = 6 if thorough else 5
-        LONG = [12, 40, 120] if thorough else [40]
+        LONG = [12, 40, 80] if thorough else [40]
         fs = lr.files(sc, extra=[reft], lrK=K, lrBodyK=KB, lrLongNs=LONG)
         rep.coverage['table_states'] = len(states)
         rep.coverage['action_entries'] = sum(len(v) for v in action.values())
@@ -119,7 +119,7 @@ def run(tier, rep):
         res = run_gosym(lr.cfg(fs, 'harnessLRBody', tier), sc, 'body', timeout=4 * 3600)
         merge_gosym(rep, res, 'S2b one rule `grammar IDENT IDENT = <body> ;` with every body of <= %d tokens vs reference parser' % KB)
         lr.handle(rep, res, fs, sc, 'C04')
-        res = run_gosym(lr.cfg(fs, 'harnessLRLong', tier), sc, 'long', timeout=4 * 3600)
+        res = run_gosym(lr.cfg(fs, 'harnessLRLong', tier, max_steps=40000000), sc, 'long', timeout=4 * 3600)
         merge_gosym(rep, res, 'S2c long sentences of nine shapes (sizes %s: alternatives, concatenations, nesting, declarations, handles) with one token kind arbitrary (start / middle / end) vs reference parser' % LONG)
         lr.handle(rep, res, fs, sc, 'C04')
         regenerate_check(rep, sc)
